@@ -46,7 +46,19 @@ META = {
             "%cant_delete, %prio, reverse-form lines, 1-3 generators merged by the real _combine_acl_text), rulebooks and trees with "
             "uncovered rows beside and below; Coq evaluates model==implementation (apply_acl, make_diff with ACL, diff, patch, "
             "cmd_paths, patch text) and the full predicate P_C02 - clauses (a),(b),(c) at every depth - on the real cmd_paths and diff; "
-            "the guards of the full-depth theorems are evaluated on every in-domain case (coverage: deep_guard_*).",
+            "the guards of the full-depth theorems are evaluated on every in-domain case (coverage: deep_guard_*). "
+            "GENERATOR STAGE (Spec/P_C02Gen.v, Proofs/AclGenStage.v, harness/impl/c02_gen_runner.py): the real "
+            "annet.gen._old_new_per_device is driven with the device configuration as text and 1-3 real PartialGenerator "
+            "subclasses replaying generated programs, each of them running, or skipped for the device (no run_<vendor>, "
+            "supports_device() false, NotSupportedDevice before or after yielding), with and without a pass-all --filter-acl; "
+            "_diff_and_patch then gets old / new / acl_rules / filter_acl_rules of the returned result object. Coq evaluates "
+            "the same report (P_C02 clauses and model==implementation) with the REFERENCE ACL = union of the ACLs of the "
+            "generators that support the device (none = the empty ACL = nothing may be touched), old = the full device "
+            "configuration, and compares the result object's old / new with the model's apply_acl, and the command paths "
+            "with those of the direct _diff_and_patch call. Proved for all inputs: C02_no_running_generator_nothing_touched "
+            "(no generator runs => empty reference ACL, empty diff, no command, device unchanged), "
+            "C02_skipped_generator_is_irrelevant, C02_empty_acl_filters_everything. Which generators ran is compared with the "
+            "modes by the runner's output (a plain equality of names, not a Coq predicate).",
     "technique": "Coq induction over diff / patch trees, the formatter's block stream, device command streams and chains of device "
                  "blocks; vm_compute evaluation of P_C02 and of model==implementation on real _diff_and_patch outputs with generated ACLs",
     "note": "partial: (b) and (c) are proved at every depth from the device domain alone for block formatters, without "
@@ -437,6 +449,136 @@ def split_case(rng: random.Random, c: dict) -> dict:
     return c
 
 
+# ------------------------------------------------------------------ generator stage: annet.gen._old_new_per_device
+
+GEN_MODES_OFF = ["novendor", "novendor_acl", "unsupported", "refuse", "refuse_late"]
+GEN_SKIPS = ("hw-vendor", "old-text-round-trip", "acl-ignore-rule", "AclNotExclusiveError", "program-text-round-trip")
+
+
+def gen_stage_case(rng: random.Random, k: int) -> dict:
+    """A case of the main stream with 1-3 named generators, every generator with a `mode`: it runs for the device, or it
+    is skipped (no run_<vendor>, supports_device() false, NotSupportedDevice before / after yielding).  The reference
+    ACL (`acl_items`) is the union of the ACLs of the generators that run: no such generator = the empty ACL."""
+    while True:
+        c = gen_case(rng, k)
+        if c["n_gen"] >= 1 and c["vendor"] != "pc" and c["old"]:
+            break
+    if c["stream"] == "rule-aligned" and rng.random() < 0.1:
+        c = split_case(rng, c)
+    names = [a["name"] for a in c["acls"]]
+    x = rng.random()
+    if x < 0.3:                                            # nobody runs
+        modes = [rng.choice(GEN_MODES_OFF) for _ in names]
+    elif x < 0.8:                                          # some run
+        modes = [("run" if rng.random() < 0.5 else rng.choice(GEN_MODES_OFF)) for _ in names]
+        if "run" not in modes:
+            modes[rng.randrange(len(modes))] = "run"
+        if len(modes) > 1 and all(m == "run" for m in modes):
+            modes[rng.randrange(len(modes))] = rng.choice(GEN_MODES_OFF)
+    else:
+        modes = ["run" for _ in names]
+    c["acls"] = [dict(a, mode=m) for a, m in zip(c["acls"], modes)]
+    running = {a["name"] for a in c["acls"] if a["mode"] == "run"}
+    c["acl_items_all"] = c["acl_items"]
+    c["acl_items"] = [it for it in c["acl_items"] if it["gens"] and it["gens"][0] in running]
+    c["stream"] = "gen:" + c["stream"]
+    c["modes"] = modes
+    return c
+
+
+def gen_view(c: dict, o: dict) -> dict:
+    """the case as the predicate sees it: device configuration, what the generators that ran produced, reference ACL"""
+    return dict(c, new=o["new_gen"])
+
+
+def gen_rep(c: dict, o: dict) -> dict:
+    return {"stage": "gen", "case": payload(c), "acl_items": c["acl_items"], "stream": c["stream"], "modes": c["modes"], "impl": o}
+
+
+def gen_stage(ctx, n: int):
+    """annet.gen._old_new_per_device with real PartialGenerator subclasses + _diff_and_patch on what it returns; Coq
+    evaluates the same report as in the main stage with the reference ACL of the generators that support the device"""
+    rng = ctx.rng("c02-gen")
+    cases = [gen_stage_case(rng, k) for k in range(n)]
+    outs = core.run_impl_sharded("c02_gen_runner.py", [payload(c) for c in cases])
+    skipped = {}
+    for o in outs:
+        if "skip" in o:
+            skipped[o["skip"]] = skipped.get(o["skip"], 0) + 1
+    bad = [i for i, o in enumerate(outs) if "skip" not in o and (
+        "fatal" in o or "diff_full_err" in o or ("err" in o and o["err"] != "AssertionError") or
+        ("gen_err" in o and o["gen_err"] != "AssertionError"))]
+    for i in bad[:1]:
+        ctx.add_violation(core.Violation(
+            signature="C02/gen-stage/implementation-raised",
+            what="_old_new_per_device + _diff_and_patch raised an unexpected exception: " +
+                 str(outs[i].get("fatal") or outs[i].get("err") or outs[i].get("diff_full_err") or outs[i].get("gen_err"))[:300],
+            replay={"stage": "gen", "case": payload(cases[i]), "impl": outs[i]}))
+    keep = [i for i, o in enumerate(outs) if "skip" not in o and i not in set(bad)]
+    # the generators that ran are exactly those whose mode says so (the reference ACL is built from the modes)
+    for i in keep:
+        want = [a["name"] for a in cases[i]["acls"] if a["mode"] == "run"]
+        if sorted(outs[i]["ran"]) != sorted(want):
+            ctx.add_violation(core.Violation(
+                signature="C02/gen-stage/other-generators-ran",
+                what=f"generators with a result {outs[i]['ran']}, generators that support the device {want}",
+                replay=gen_rep(cases[i], outs[i])))
+            break
+    terms = [coq_case(gen_view(cases[i], outs[i]), outs[i]) for i in keep]
+    res = run_reports(terms, tag="gen") if terms else {l: [] for l in LABELS}
+    res = {k: [keep[j] for j in v] for k, v in res.items()}
+    weak_fail = set(res["cl_a"]) | set(res["cl_a_diff"]) | set(res["cl_b"]) | set(res["cl_c"])
+    for i in [i for i in res["holds"] if i in weak_fail][:3]:
+        failed = [k for k in CLAUSES if i in res[f"cl_{k}"]]
+        ctx.add_violation(core.Violation(
+            signature="C02/gen-stage/" + "+".join(failed),
+            what="on the output of the real _old_new_per_device + _diff_and_patch, with the ACL of the generators that "
+                 "support the device as reference: " + "; ".join(CLAUSES[k] for k in failed),
+            replay=dict(gen_rep(cases[i], outs[i]), clauses=failed)))
+    for i in res["agree_filter"][:1]:
+        ctx.add_violation(core.Violation(
+            signature="C02/gen-stage/old-new-not-cut-by-the-acl-of-the-running-generators",
+            what="old / new as _old_new_per_device returns them are not the device configuration / the generated "
+                 "configuration cut by the combined ACL of the generators that support the device (Coq: p_acl_filter)",
+            replay=dict(gen_rep(cases[i], outs[i]), correspondence="filter")))
+    for i in res["gen_same"][:1]:
+        ctx.add_violation(core.Violation(
+            signature="C02/gen-stage/differs-from-the-direct-call",
+            what="the command paths of _old_new_per_device + _diff_and_patch differ from those of _diff_and_patch on the "
+                 "device configuration with the ACL compiled from the texts of the generators that support the device",
+            replay=gen_rep(cases[i], outs[i])))
+    if not weak_fail and not res["gen_same"] and not res["agree_filter"]:
+        for a in AGREE:
+            for i in res[f"agree_{a}"][:1]:
+                ctx.add_violation(core.Violation(
+                    signature=f"C02/gen-stage/model-impl-disagree/{a}",
+                    what=f"Coq model and implementation differ on '{a}' in the generator stage (correspondence broken); the "
+                         f"property clauses hold on every implementation output explored",
+                    replay=dict(gen_rep(cases[i], outs[i]), correspondence=a), no_input=True))
+    hist = {}
+    for i in keep:
+        ms = cases[i]["modes"]
+        key = "none-runs" if "run" not in ms else ("all-run" if all(m == "run" for m in ms) else "some-run")
+        hist[key] = hist.get(key, 0) + 1
+    mode_hist = {}
+    for i in keep:
+        for m in cases[i]["modes"]:
+            mode_hist[m] = mode_hist.get(m, 0) + 1
+    ctx.coverage.update({
+        "gen_stage_evaluations": len(keep),
+        "gen_stage_skipped": skipped,
+        "gen_stage_selection_histogram": hist,
+        "gen_stage_mode_histogram": mode_hist,
+        "gen_stage_none_runs_and_patch_empty": sum(
+            1 for i in keep if "run" not in cases[i]["modes"] and not outs[i].get("cmd_paths")),
+        "gen_stage_nonempty_patch": sum(1 for i in keep if outs[i].get("cmd_paths")),
+        "gen_stage_acl_is_none": sum(1 for i in keep if outs[i].get("acl_is_none")),
+        "gen_stage_only_full_c_fails": len([i for i in res["holds"] if i not in weak_fail]),
+        "gen_stage_disagreements_checked": sum(len(res[f"agree_{a}"]) for a in AGREE) + len(res["gen_same"]),
+    })
+    return cases, outs, res
+
+
 def run(ctx):
     core.proof_stage(ctx, THEOREM_FILE)
     rng = ctx.rng("c02")
@@ -533,6 +675,8 @@ def run(ctx):
                 replay=dict(rep(cases[i], outs[i]), clauses=broken), no_input=True))
             break
 
+    gen_stage(ctx, 1500 if ctx.thorough else 160)
+
     seen, nt = set(), 0
     hist_gen, hist_stream, vend = {}, {}, {}
     for i in keep:
@@ -595,7 +739,13 @@ def run(ctx):
 def replay(ctx, doc):
     r = doc["replay"]
     c = r["case"]
-    out = core.run_impl("c02_runner.py", [c])[0]
+    if r.get("stage") == "gen":
+        out = core.run_impl("c02_gen_runner.py", [c])[0]
+        print("generators (name, mode):", [(a["name"], a["mode"]) for a in c["acls"]])
+        print("generators that ran:", out.get("ran"))
+        print("old handed to the patcher:", out.get("old_f"))
+    else:
+        out = core.run_impl("c02_runner.py", [c])[0]
     print("acl text:\n" + out.get("acl_text", ""))
     print("old:", c["old"])
     print("new:", c["new"])
